@@ -5,7 +5,8 @@ placement of SIGINT relative to every other action.  Code: (a) the design parame
 from a recorded trace; (b) SIGINT is raised at the k-th passage of every hook point of every thread
 (fault enumeration over signal points), with and without holding the raising thread in place, plus
 externally timed signals; (c) adversarial orders taken from the model's counterexamples are replayed
-through the turnstile.  Observed: private TMPDIR after exit, exit latency, exit status."""
+through the turnstile; (d) the reader of standard output goes away early (closed pipe), with workers held
+right after a send.  Observed: private TMPDIR after exit, exit latency, exit status."""
 import os
 import random
 import shutil
@@ -31,7 +32,7 @@ EXT = {"jgz": "journal.gz", "jbz2": "journal.bz2", "jxz": "journal.xz", "jlz4": 
 PROMPT_BOUND_S = 5.0
 
 
-def run_case(sc, idx, keys, env, plan=None, ext_sigint_after=None, timeout=40):
+def run_case(sc, idx, keys, env, plan=None, ext_sigint_after=None, timeout=40, close_after=None):
     """Run s4 on copies of the sources in a private dir with a private TMPDIR. Returns dict."""
     d = os.path.join(sc, "c%d" % idx)
     tmp = os.path.join(d, "tmp")
@@ -42,7 +43,41 @@ def run_case(sc, idx, keys, env, plan=None, ext_sigint_after=None, timeout=40):
         shutil.copyfile(os.path.join(REPO, SRC[k]), os.path.join(d, name))
         argv.append(name)
     t_sig = None
-    if ext_sigint_after is None:
+    if close_after is not None:
+        # the reader of standard output goes away after `close_after` bytes (`s4 ... | head`)
+        import json
+        e = {"PATH": os.environ.get("PATH", ""), "TZ": "UTC", "TMPDIR": tmp,
+             "S4_VERIF_TRACE": os.path.join(d, "trace.ndjson")}
+        e.update(env)
+        t0 = time.time()
+        with open(os.path.join(d, "stderr.txt"), "wb") as ferr:
+            p = subprocess.Popen([common.S4_BIN, "-t", "+00:00", "--color", "never"] + argv, cwd=d, env=e,
+                                 stdout=subprocess.PIPE, stderr=ferr)
+            got = b""
+            while len(got) < close_after:
+                chunk = p.stdout.read(close_after - len(got))
+                if not chunk:
+                    break
+                got += chunk
+            p.stdout.close()
+            try:
+                p.wait(timeout=timeout)
+                timed_out = False
+            except subprocess.TimeoutExpired:
+                p.kill()
+                p.wait()
+                timed_out = True
+        events = []
+        try:
+            for line in open(os.path.join(d, "trace.ndjson")):
+                try:
+                    events.append(json.loads(line))
+                except ValueError:
+                    pass
+        except OSError:
+            pass
+        r = common.Run(p.returncode, got, open(os.path.join(d, "stderr.txt"), "rb").read(), time.time() - t0, events, timed_out)
+    elif ext_sigint_after is None:
         r = common.run_s4(["--color", "never"] + argv, cwd=d, env=env, plan=plan, trace=True, tmpdir=tmp,
                           timeout=timeout)
     else:
@@ -82,7 +117,7 @@ def run_case(sc, idx, keys, env, plan=None, ext_sigint_after=None, timeout=40):
     res = {"keys": keys, "argv": argv, "env": env, "plan": plan, "ext_sigint_after": ext_sigint_after, "rc": r.rc,
            "timed_out": r.timed_out, "wall": r.wall, "leftover": left, "trace": r.trace,
            "stderr": r.err[-500:].decode(errors="replace"),
-           "sig_to_exit": None if t_sig is None else t_end - t_sig}
+           "sig_to_exit": None if t_sig is None else t_end - t_sig, "close_after": close_after}
     shutil.rmtree(d, ignore_errors=True)
     return res
 
@@ -92,6 +127,8 @@ def classify(res):
     tr = res["trace"]
     sig = any(e["ev"] in ("HStart", "SigRaise") for e in tr) or res["ext_sigint_after"] is not None
     hstart = any(e["ev"] == "HStart" for e in tr)
+    if not sig and res.get("close_after") is not None:
+        return "closed-pipe-leak"
     if not sig or not hstart:
         return "normal-exit-leak" if not sig else "sigint-leak:handler-never-ran"
     path_owner = {}
@@ -139,6 +176,10 @@ def tlc_part(sc, rep, tier, dropfirst):
         m = 1 if n >= 2 else 2
         base = runmodel.s4run_constants(n, m, {1}, tmpw=set(range(1, n + 1)), sig=False, dropfirst=dropfirst)
         runs.append(("normal-n%d" % n, base, ["NoLeakNormal", "AllPrintedAtEnd"], ["Exits"]))
+        # a write to stdout may fail (closed pipe): main disconnects the channels and leaves without waiting for the workers
+        ep = dict(base)
+        ep["EPIPE"] = True
+        runs.append(("epipe-n%d" % n, ep, ["NoLeakNormal"], ["Exits"]))
         sg = dict(base)
         sg["SIG"] = True
         for inv in ("NoLeakNormal", "NoLeakUnregistered", "NoLeakRegistered"):
@@ -146,7 +187,7 @@ def tlc_part(sc, rep, tier, dropfirst):
     for name, consts, invs, props in runs:
         r = runmodel.model_check(os.path.join(sc, "tlc"), name, consts, invs, props, workers=8, timeout=900)
         if r.violated:
-            sigx = {"NoLeakNormal": "normal-exit-leak", "NoLeakUnregistered": "sigint-leak:unregistered-at-exit",
+            sigx = "closed-pipe-leak" if name.startswith("epipe") else {"NoLeakNormal": "normal-exit-leak", "NoLeakUnregistered": "sigint-leak:unregistered-at-exit",
                     "NoLeakRegistered": "sigint-leak:registered-after-handler-pass"}.get(r.violated, r.violated)
             # DROPFIRST / REGATOMIC are read off the code structurally; a violation of the model under them is a
             # PREDICTION that must be reproduced on the real binary before it is reported (soundness rule 1)
@@ -275,9 +316,23 @@ def run(pid, tier, seed):
             for i in range(sweep):
                 jobs.append((keys, {}, None, wall * (i + rng.random()) / sweep, "sigint:external"))
 
+        # (e) the reader of standard output goes away (`s4 ... | head`): every print fails from then on, main
+        #     disconnects the channels one by one and leaves without waiting for the workers; a worker held right
+        #     after one of its sends still owns its file when main gets there
+        for keys in combos:
+            for take in ([0, 300] if tier == "quick" else [0, 1, 300, 5000, 60000]):
+                jobs.append((keys, {}, None, ("close", take), "epipe:free"))
+                for w in range(len(keys)):
+                    for k in ((1,) if tier == "quick" else (0, 1, 3)):
+                        jobs.append((keys, {"S4_VERIF_HOLD": "w%d:SendDone:%d:300" % (w, k)}, None, ("close", take), "epipe:hold-worker"))
+                jobs.append((keys, {"S4_VERIF_HOLD": "main:MainExit:0:200"}, None, ("close", take), "epipe:hold-main"))
+
         def do(ij):
             i, (keys, env, plan, ext, label) = ij
-            res = run_case(sc, i, keys, env, plan=plan, ext_sigint_after=ext)
+            if isinstance(ext, tuple):
+                res = run_case(sc, i, keys, env, plan=plan, close_after=ext[1])
+            else:
+                res = run_case(sc, i, keys, env, plan=plan, ext_sigint_after=ext)
             res["label"] = label
             return res
 
@@ -295,7 +350,7 @@ def run(pid, tier, seed):
             distinct.add((tuple(res["keys"]), label, str(sorted(res["env"].items()))))
             sigint = label.startswith("sigint") or label.startswith("plan")
             rec = {"kind": "c18", "keys": res["keys"], "env": res["env"], "label": label,
-                   "ext_sigint_after": res["ext_sigint_after"], "leftover": res["leftover"], "rc": res["rc"],
+                   "ext_sigint_after": res["ext_sigint_after"], "close_after": res.get("close_after"), "leftover": res["leftover"], "rc": res["rc"],
                    "stderr": res["stderr"], "trace": res["trace"][:300]}
             if res["timed_out"]:
                 rep.violation("hang:%s" % label.split(":")[0], "run did not end (label %s)" % label, rec)
@@ -304,7 +359,7 @@ def run(pid, tier, seed):
                 rep.violation(classify(res), "temp file(s) %s left in TMPDIR after exit (%s)" % (res["leftover"], label), rec)
             if res["rc"] not in (0, 1, -2, 130):
                 rep.violation("exit-status:%s" % label.split(":")[0], "exit status %s (%s)" % (res["rc"], label), rec)
-            if not sigint and res["rc"] != 0:
+            if not sigint and not label.startswith("epipe") and res["rc"] != 0:
                 rep.violation("exit-status:normal", "normal run exit status %s" % res["rc"], rec)
             lat = res["sig_to_exit"]
             if lat is None and sigint:
@@ -322,7 +377,7 @@ def run(pid, tier, seed):
             if len(samples) < 4 and (sigint or len(samples) < 1):
                 samples.append({"sources": res["keys"], "label": label, "env": res["env"], "rc": res["rc"],
                                 "leftover": res["leftover"], "events": [e["ev"] for e in ev][:40]})
-            if not sigint and not res["leftover"]:
+            if not sigint and not res["leftover"] and not label.startswith("epipe"):
                 trace_batches.append(res)
 
         # model predictions (design parameters read off the code) must be reproduced on the real binary
@@ -384,7 +439,8 @@ def replay(rec):
     with Scratch("replayC18") as sc:
         bad = 0
         for i in range(5):
-            res = run_case(sc, i, rec["keys"], rec["env"], ext_sigint_after=rec.get("ext_sigint_after"))
+            res = run_case(sc, i, rec["keys"], rec["env"], ext_sigint_after=rec.get("ext_sigint_after"),
+                           close_after=rec.get("close_after"))
             print("replay run %d: rc=%s leftover=%s" % (i, res["rc"], res["leftover"]))
             if res["leftover"] or res["timed_out"]:
                 bad += 1
